@@ -40,6 +40,23 @@ fn bad_requests(tier: Tier) -> Vec<(&'static str, Vec<u8>)> {
         v.push(("expect-unsupported", format!("POST /e HTTP/1.1\r\nHost: t\r\nExpect: {}\r\nContent-Length: 3\r\n\r\nabc", e).into_bytes()));
         v.push(("expect-unsupported", format!("GET /e HTTP/1.1\r\nHost: t\r\nexpect: {}\r\n\r\n", e).into_bytes()));
     }
+    // the same classes on HTTP/1.0 requests (the version must not change the verdict)
+    let on_10: Vec<(&'static str, Vec<u8>)> = v
+        .iter()
+        .filter(|(c, b)| !c.starts_with("version") && !c.starts_with("request-line") && b.windows(8).any(|w| w == b"HTTP/1.1"))
+        .filter(|(c, _)| tier == Tier::Thorough || *c == "expect-unsupported" || *c == "header-without-colon")
+        .map(|(c, b)| {
+            let s = String::from_utf8_lossy(b).replacen("HTTP/1.1", "HTTP/1.0", 1);
+            // bytes >= 0x80 do not survive the lossy round trip: patch the token in place instead
+            let mut out = b.clone();
+            if let Some(p) = out.windows(8).position(|w| w == b"HTTP/1.1") {
+                out[p + 7] = b'0';
+            }
+            let _ = s;
+            (*c, out)
+        })
+        .collect();
+    v.extend(on_10);
     for ver in ["HTTP/2.0", "HTTP/3.0"] {
         v.push(("version-above-1.1", format!("GET /v {}\r\nHost: t\r\n\r\n", ver).into_bytes()));
         v.push(("version-above-1.1", format!("POST /v {}\r\nHost: t\r\nContent-Length: 4\r\n\r\nbody", ver).into_bytes()));
